@@ -155,7 +155,7 @@ Qed.
    hides a field, NaN): the report still lists the position with the actual value's text *)
 Example C19_identical_debug_texts :
   let actual := VCon "Amb" [VInt 1; VInt 2] in          (* Amb(1, 2) *)
-  accepts (SCmp false 4) actual = false /\              (* eq!(&Amb(1, 0)): 4 * 1 + 0 *)
+  accepts (SCmp false 4) actual = false /\              (* eq!(&Amb(1, 0)): 4 * 1 + 0; Amb(1, 2) == Amb(1, 0) is false (2 <= 0) *)
   option_map (fun m => (mm_input m, mm_actual m, mm_expected m)) (diag_stmt 0 AKUnknown (TB BAmb) (SCmp false 4) actual)
   = Some (0%nat, Some "Amb(1)"%string, Some "Amb(1)"%string).
 Proof. vm_compute. split; reflexivity. Qed.
